@@ -38,8 +38,9 @@ namespace OP2Utility
 		}
 
 		// Relative paths are relative to resourceRootDir
+		// Note: Only a regular file counts as a loose resource, not a directory of that name
 		const std::string path = XFile::Append(resourceRootDir, filename);
-		if (XFile::PathExists(path)) {
+		if (XFile::IsFile(path)) {
 			return std::make_unique<Stream::FileReader>(path);
 		}
 
